@@ -95,6 +95,14 @@ pub fn adjust(cfg: &mut SwarmCfg, tier: &str, r: &mut Prng) {
             setw(cfg, "reload", 8);
             setw(cfg, "write", 8);
             setw(cfg, "ext_commit", 4);
+            if r.chance(1, 3) {
+                // a storage call of the operation fails: the keys a member holds afterwards still match its tree
+                cfg.scenario = "storage-faults".into();
+                cfg.oracles.push("storage-faults".into());
+                cfg.faults.push("S-ERR".into());
+                cfg.knobs.push(("no-write-faults".into(), 1));
+                cfg.knobs.push(("sample-faults".into(), 4));
+            }
         }
         "C13" => {
             cfg.oracles = sv(&["agreement", "kdf-model", "record-crypto"]);
@@ -482,7 +490,7 @@ pub fn extra_action(w: &mut World, kind: &str) -> Option<Action> {
             Some(Action::Special {
                 kind: "forge".into(),
                 a: p as u64,
-                b: if w.cfg.knob("templates").is_some() { w.prng.below(12) } else { w.prng.below(9) },
+                b: if w.cfg.knob("templates").is_some() { w.prng.below(13) } else { w.prng.below(10) },
                 c: w.prng.below(8),
             })
         }
